@@ -1,9 +1,9 @@
 package c07comb
 
 import (
-	"math"
 	"context"
 	"fmt"
+	"math"
 	"reflect"
 	"testing"
 	"time"
@@ -118,8 +118,25 @@ func genSingle(t *rapid.T) Single {
 		c.N = genParam(t, "n", n, -3) // a negative count means "none", in the iterator and the stream version alike
 	case "Last":
 		c.N = genParam(t, "n", n, 0)
+		if rapid.IntRange(0, 7).Draw(t, "biglast") == 0 {
+			big := rapid.IntRange(1025, 2600).Draw(t, "biglen")
+			c.Input = make([]int, big)
+			for i := range c.Input {
+				c.Input[i] = (i * 7) % U
+			}
+			c.N = rapid.SampledFrom([]int{1023, 1024, 1025, 2000, big - 1, big, big + 1, 70000}).Draw(t, "bigsize")
+		}
 	case "Chunk":
 		c.N = genParam(t, "chunk", n, 1)
+		if rapid.IntRange(0, 5).Draw(t, "bigchunks") == 0 {
+			// chunks of more than a thousand items (sizes around 2^10, where implementations like to switch strategy)
+			big := rapid.IntRange(1025, 2600).Draw(t, "biglen")
+			c.Input = make([]int, big)
+			for i := range c.Input {
+				c.Input[i] = (i * 7) % U
+			}
+			c.N = rapid.SampledFrom([]int{1023, 1024, 1025, 2000, big - 1, big}).Draw(t, "bigsize")
+		}
 	case "Flatten", "FlattenSlices", "Join":
 		c.Nest = genNest(t)
 		c.Input = nil
